@@ -313,6 +313,48 @@ def extra_cases(res):
     import strawberryfields as sf
     from mc.ref import phase as ph
 
+    # (d) one- and two-mode Gaussian states at hbar != 2: every query asked twice gives the same answer, the state's own data
+    # (means, cov) stay what they were, and squeezing() / mean_photon / quad_expectation agree with the closed forms
+    old = sf.hbar
+    try:
+        for h in (0.5, 1.0, 3.0):
+            for nmodes in (1, 2):
+                for r, phi in ((0.4, 0.0), (0.3, 0.7)):
+                    res.n += 1
+                    res.nt += 1
+                    case = {"part": "extra", "what": "small-register-hbar", "hbar": h, "modes": nmodes, "r": r, "phi": phi}
+                    sf.hbar = h
+                    prog = sf.Program(nmodes)
+                    with prog.context as q:
+                        ops.Sgate(r, phi) | q[0]
+                    with warnings.catch_warnings():
+                        warnings.simplefilter("ignore")
+                        st = sf.Engine("gaussian").run(prog).state
+                        V0 = np.array(st.cov()).copy()
+                        first = {}
+                        for rnd in (0, 1):
+                            ans = {
+                                "squeezing": np.array(st.squeezing(), dtype=float),
+                                "mean_photon": np.array(st.mean_photon(0), dtype=float),
+                                "quad_expectation": np.array(st.quad_expectation(0, 0.0), dtype=float),
+                                "wigner": np.array(st.wigner(0, np.array([0.1 * h]), np.array([0.2 * h]))) * h,
+                                "purity": 1.0 if bool(st.is_pure) else 0.0,
+                                "is_squeezed": bool(st.is_squeezed(0)),
+                            }
+                            if rnd == 0:
+                                first = ans
+                            else:
+                                for k in ans:
+                                    if np.max(np.abs(np.asarray(ans[k], dtype=float) - np.asarray(first[k], dtype=float))) > 1e-9:
+                                        res.violation(f"C16|{k}|second-call-differs|hbar!=2", f"{nmodes}-mode Gaussian state Sgate({r}, {phi}) at hbar={h}: {k} answered {np.round(np.ravel(first[k])[:4], 6).tolist()} first and {np.round(np.ravel(ans[k])[:4], 6).tolist()} after the other queries had been made", case)
+                        V1 = np.array(st.cov())
+                    if np.max(np.abs(V1 - V0)) > 0:
+                        res.violation("C16|query-mutates-state|gaussian|hbar!=2", f"{nmodes}-mode Gaussian state Sgate({r}, {phi}) at hbar={h}: cov() changed by {np.max(np.abs(V1 - V0)):.3g} after the queries", case)
+                    want = np.sinh(r) ** 2
+                    if abs(first["mean_photon"][0] - want) > 1e-8 or abs(first["squeezing"][0][0] - r) > 1e-8 or abs(first["purity"] - 1) > 1e-8:
+                        res.violation("C16|closed-form|gaussian|hbar!=2", f"{nmodes}-mode Gaussian state Sgate({r}, {phi}) at hbar={h}: mean_photon {first['mean_photon'][0]:.6g} (sinh^2 r = {want:.6g}), squeezing r {first['squeezing'][0][0]:.6g}, purity {first['purity']:.6g}", case)
+    finally:
+        sf.hbar = old
     # (a)
     for r in (0.3, 0.5):
         for phi in (0.0, 0.4, PI / 2, 2.0, 2.5, PI, -2.5, -PI / 2, -1.0):
